@@ -1,4 +1,7 @@
 (* ExtractDeps.v — every executable model file the OCaml driver is extracted from.
    No proofs are required here, so the model still runs when a proof breaks. *)
-From Agdb Require Export Bytes Utf8 Codec DbValue Graph DbModel Search Queries FileWal ConcRead.
+From Agdb Require Export Bytes Utf8 Codec DbValue Graph DbModel Search Queries FileWal.
 From Agdb Require Raft.
+(* loaded last: the extraction renames clashing names of LATER libraries, the drivers of the earlier ones keep theirs;
+   m_conc.ml / m_derive.ml use only the uniquely named entry points *)
+From Agdb Require Export ConcRead DeriveType.
